@@ -69,6 +69,9 @@ LOCS = [
     "def f[T, U: (int, str)](a, b=1): pass\ndef g[*A, B: (int)]( x ): pass\nclass K[T, U: (a, b)](B): pass",
     "x = f('a',\n      'é', b)\ny = [é,\n  'üü', z]\nw = ('ß'\n     'long ascii text here')",
     "v = ('é', #é\n  b,\n   'öö')\nδδ = {\n 'k': 'é'}",
+    "match s:\n    case 1:\n        f(\"\"\"a\nb\"\"\", [\n            c, d])\n    case 2:\n        x = '''é\n  ü'''; y = (1,\n          2)",
+    "def f():\n    s = \"\"\"x\ny\"\"\" + g(a,\n              b)\n    return s",
+    "try:\n    pass\nexcept E:\n    t = '''1\n2''', [3,\n        4]",
 ]
 PROGS = BASE + EXTRA + TRICKY + PARS + LOCS
 for _p in PROGS:
